@@ -10,7 +10,8 @@ open Refine Raft
 theorem aux_campaign {val : Val} {n : Nat} {t : CampaignType} {r r' : Raft} (hid : r.cfg.id = n)
     (haux : AuxInv n r) (hp : CampaignPost val t r r') : AuxInv n r' ∧ AuxFrame r r' := by
   have hf : AuxFrame r r' :=
-    ⟨by rw [hp.term]; exact Nat.le_succ _, fun h _ => by rw [hp.term] at h; omega⟩
+    ⟨by rw [hp.term]; exact Nat.le_succ _, fun h _ => by rw [hp.term] at h; omega,
+      fun h _ => by rw [hp.term] at h; omega⟩
   refine ⟨?_, hf⟩
   exact {
     matchLe := fun hl => by rw [hp.state] at hl; cases hl
@@ -73,7 +74,7 @@ theorem aux_tick_nonleader {val : Val} {voters : List Id} {n : Nat} {s : Spec.St
       hinv.congr rfl rfl rfl rfl rfl rfl rfl rfl rfl rfl rfl rfl
     have haux0 : AuxInv n { r with electionElapsed := 0 } := ⟨haux.matchLe, haux.self, haux.outFrom⟩
     obtain ⟨ha, hfr⟩ := aux_hup (fuel := 2) hinv0 haux0 rfl rfl hc
-    exact ⟨ha, ⟨hfr.term, hfr.lead⟩⟩
+    exact ⟨ha, ⟨hfr.term, hfr.lead, hfr.fol⟩⟩
   · have hidle : Live.promotableB r = false ∨ r.electionElapsed + 1 < r.randomizedElectionTimeout := by
       cases hpb : Live.promotableB r with
       | false => exact Or.inl rfl
@@ -85,6 +86,6 @@ theorem aux_tick_nonleader {val : Val} {voters : List Id} {n : Nat} {s : Spec.St
     injection h with h
     injection h with _ e2
     subst e2
-    exact ⟨⟨haux.matchLe, haux.self, haux.outFrom⟩, ⟨Nat.le_refl _, fun _ h => ⟨h, Nat.le_refl _⟩⟩⟩
+    exact ⟨⟨haux.matchLe, haux.self, haux.outFrom⟩, ⟨Nat.le_refl _, fun _ h => ⟨h, Nat.le_refl _⟩, fun _ h => h⟩⟩
 
 end RaftVerif.Sim
